@@ -219,8 +219,8 @@ func (cf *CloudflarePublisher) PublishECH(ctx context.Context, records []Target,
 }
 
 // splitParams splits a list of service parameters in presentation format at
-// the spaces that separate them. A space inside a quoted value, or after a
-// backslash, is part of the value.
+// the spaces or tabs that separate them. A space inside a quoted value, or
+// after a backslash, is part of the value.
 func splitParams(s string) []string {
 	var out []string
 	start, quoted := 0, false
@@ -230,7 +230,7 @@ func splitParams(s string) []string {
 			i++
 		case s[i] == '"':
 			quoted = !quoted
-		case s[i] == ' ' && !quoted:
+		case (s[i] == ' ' || s[i] == '\t') && !quoted:
 			out = append(out, s[start:i])
 			start = i + 1
 		}
